@@ -39,7 +39,7 @@ ASSUMPTIONS = [
     '"retries until success" is checked as bounded safety (finite patterns; '
     'unbounded efforts are ended by shutdown())',
 ]
-BUDGET = {'quick': 1500, 'thorough': 60000}
+BUDGET = {'quick': 8000, 'thorough': 80000}
 FLOOR = {'quick': 150, 'thorough': 5000}
 NSS = ['/', '/a', '/b']
 EXHAUSTIVE = True
